@@ -211,6 +211,8 @@ structure DSt where
   sym : Option (Sym Float) := none
   /-- implementation-side observations used by the interpreter oracles -/
   lastRes : String := ""
+  /-- kind and name of every top-level statement of the chunk interpreted last, in order -/
+  lastKinds : List String := []
   lastSummary : List String := []
   snap : List String := []
   lastFinish : Array (Cx Float) × String := (#[], "")
@@ -416,6 +418,19 @@ def evalErrStr : EvalErr → String
       | .unknownFunction => "UnknownFunction")
   | .parseError => "ParseError"
   | .rpnError => "RPNError"
+
+/-- kind and name of a top-level statement, as the generators spell it (`tools`: harness `expected_kinds`) -/
+def nodeKind (n : Node Float) : String :=
+  match n with
+  | .qreg a k => s!"qreg:{a}:{k}"
+  | .creg a k => s!"creg:{a}:{k}"
+  | .barrier => "barrier"
+  | .reset _ => "reset"
+  | .measure _ _ => "measure"
+  | .apply c => "apply:" ++ c.name
+  | .opaque => "opaque"
+  | .gate name _ _ _ => "gate:" ++ name
+  | .ifn _ _ body => "if:" ++ (match body with | .call c => c.name | .other => "?")
 
 def intErrStr : IntError → String
   | .noQReg n => s!"NoQReg {hexStr n}"
@@ -1128,6 +1143,9 @@ def stepInt (st : DSt) (r : Report) (ln : Nat) (cmd obs : Toks) : Option (DSt ×
     let res := st.lastRes
     match what with
     | ["ok"] => some (st, specCheck r st ln "iexpect.accept" (res == "ok") "ok" res)
+    | "kinds" :: ks =>
+      -- SPEC (C10, C17): the statements the interpreter is given are the statements of the text, each once, in order
+      some (st, specCheck r st ln "c10.kinds" (st.lastKinds == ks) (String.intercalate " " ks) (String.intercalate " " st.lastKinds))
     | ["asts", k] =>
       some (st, specCheck r st ln "iexpect.asts" (st.lastSummary.getD 4 "" == s!"asts={k}") s!"asts={k}" (st.lastSummary.getD 4 ""))
     | [variant] =>
@@ -1183,7 +1201,8 @@ def stepInt (st : DSt) (r : Report) (ln : Nat) (cmd obs : Toks) : Option (DSt ×
             let r := if model == implRes then r else r.mismatch st ln (c ++ ".result") model implRes
             let r := cmpSummary r st ln c int' summary
             let prog := if implRes == "ok" then st.progNodes ++ nodes else st.progNodes
-            some ({ st with int := some int', lastRes := implRes, lastSummary := summary, progNodes := prog }, r)
+            some ({ st with int := some int', lastRes := implRes, lastSummary := summary, progNodes := prog,
+                            lastKinds := nodes.map nodeKind }, r)
           | _ => some (st, r.mismatch st ln c "decodable-ast" (String.intercalate " " (nodeToks.take 12)))
         | _ => some (st, r.mismatch st ln c "nodes ;; result ;; summary" (String.intercalate " " (obs.take 6)))
       | _ =>
